@@ -56,6 +56,9 @@ def canon_expr(e):
             for t in neg:
                 r = ('bin', '-', r, t)
             return r
+        if x[1] in ('==', '!='):
+            a, b = sorted([x[2], x[3]], key=lambda e: (1 if e[0] in ('num', 'str', 'none', 'bool') else 0, repr(e)))          # `0 == n` is `n == 0`
+            return ('bin', x[1], a, b)
         if x[1] == '*':
             fs = []
             _factors(x, fs)
@@ -90,4 +93,29 @@ def addends(e):
     ts = []
     _terms(e, 1, ts)
     return [t for s_, t in ts if s_ > 0], [t for s_, t in ts if s_ < 0]
+
+
+def split_cond_assigns(stmts):
+    """`t = c ? a : b` is `if c: t = a else: t = b`, and `return c ? a : b` is `if c: return a else: return b` -- one shape for both spellings
+    (nested conditional expressions become nested ifs).  Applied through all nested blocks."""
+    from .ir import mk_if
+    out = []
+    for s in stmts:
+        d = dict(s.d)
+        for attr in ('then', 'els', 'body', 'orelse', 'final'):
+            if isinstance(d.get(attr), list):
+                d[attr] = split_cond_assigns(d[attr])
+        if 'handlers' in d:
+            d['handlers'] = [(h[0], h[1], split_cond_assigns(h[2])) for h in d['handlers']]
+        s = S(s.k, s.line, **d)
+        v = s.value if s.k in ('assign', 'return') else None
+        if v is not None and v[0] == 'cond' and (s.k == 'return' or (s.d.get('aug') is None and s.target[0] in ('var', 'idx', 'attr'))):
+            def arm(val):
+                d2 = dict(s.d)
+                d2['value'] = val
+                return split_cond_assigns([S(s.k, s.line, **d2)])
+            out.append(mk_if(s.line, v[1], arm(v[2]), arm(v[3])))
+        else:
+            out.append(s)
+    return out
 
